@@ -41,76 +41,92 @@ package persistence
 //@ pred pmOK(m StateMachine) = m.StateMachine != nil && m.pr != nil && smWF(m.StateMachine)
 
 //@ func (StateMachine).Update
+//@   inline
 //@   requires pmOK(m) && stateWF(stagingState) && (pm(m).phase == channel.Acting ==> stateWF(pm(m).currentTX.State) && pm(m).currentTX.State.Version < 18446744073709551615 && allocFor(pm(m), pm(m).currentTX.State))
 //@   modifies pm(m).phase, pm(m).stagingTX
 //@   callsite channel_persistence.Persister.Staged : payload(arg1) == m.StateMachine && pm(m).stagingTX.State == stagingState && pm(m).phase == channel.Signing && old(pm(m).phase) == channel.Acting
 //@   ensures result == nil ==> pm(m).stagingTX.State == stagingState
 
 //@ func (StateMachine).ForceUpdate
+//@   inline
 //@   requires pmOK(m) && stagingState != nil && pm(m).currentTX.State != nil
 //@   modifies pm(m).phase, pm(m).stagingTX
 //@   callsite channel_persistence.Persister.Staged : payload(arg1) == m.StateMachine && pm(m).stagingTX.State == stagingState && pm(m).phase == channel.Signing
 
 //@ func (*StateMachine).Init
+//@   inline
 //@   requires m != nil && pmOK(*m) && nonNilBalances(initBals.Balances) && nonNilLocked(initBals.Locked)
 //@   modifies m.StateMachine.machine.phase, m.StateMachine.machine.stagingTX
 //@   callsite channel_persistence.Persister.Staged : payload(arg1) == m.StateMachine && m.StateMachine.machine.stagingTX.State != nil && m.StateMachine.machine.phase == channel.InitSigning && old(m.StateMachine.machine.phase) == channel.InitActing
 
 //@ func (StateMachine).DiscardUpdate
+//@   inline
 //@   requires pmOK(m)
 //@   modifies pm(m).phase, pm(m).stagingTX
 //@   callsite channel_persistence.Persister.Staged : payload(arg1) == m.StateMachine && pm(m).stagingTX.State == nil && pm(m).phase == channel.Acting && old(pm(m).phase) == channel.Signing
 
 //@ func (StateMachine).SetProgressing
+//@   inline
 //@   requires pmOK(m) && s != nil
 //@   modifies pm(m).phase, pm(m).stagingTX
 //@   callsite channel_persistence.Persister.Staged : payload(arg1) == m.StateMachine && pm(m).stagingTX.State == s && pm(m).phase == channel.Progressing
 
 //@ func (StateMachine).Sig
+//@   inline
 //@   requires pmOK(m)
 //@   modifies pm(m).stagingTX.Sigs[pm(m).idx]
 //@   callsite channel_persistence.Persister.SigAdded : payload(arg1) == m.StateMachine && arg2 == pm(m).idx && signing(pm(m).phase)
 
 //@ func (StateMachine).AddSig
+//@   inline
 //@   requires pmOK(m) && idx < len(pm(m).params.Parts)
 //@   modifies pm(m).stagingTX.Sigs[idx]
 //@   callsite channel_persistence.Persister.SigAdded : payload(arg1) == m.StateMachine && arg2 == idx && pm(m).stagingTX.Sigs[idx] == sig && old(pm(m).stagingTX.Sigs[idx]) == nil
 
 //@ func (StateMachine).EnableInit
+//@   inline
 //@   requires pmOK(m)
 //@   modifies pm(m).phase, pm(m).stagingTX, pm(m).currentTX, pm(m).prevTXs, pm(m).prevTXs[*]
 //@   callsite channel_persistence.Persister.Enabled : payload(arg1) == m.StateMachine && pm(m).currentTX.State == old(pm(m).stagingTX.State) && pm(m).stagingTX.State == nil && pm(m).phase == channel.Funding
 //@ func (StateMachine).EnableUpdate
+//@   inline
 //@   requires pmOK(m)
 //@   modifies pm(m).phase, pm(m).stagingTX, pm(m).currentTX, pm(m).prevTXs, pm(m).prevTXs[*]
 //@   callsite channel_persistence.Persister.Enabled : payload(arg1) == m.StateMachine && pm(m).currentTX.State == old(pm(m).stagingTX.State) && pm(m).stagingTX.State == nil && pm(m).phase == channel.Acting
 //@ func (StateMachine).EnableFinal
+//@   inline
 //@   requires pmOK(m)
 //@   modifies pm(m).phase, pm(m).stagingTX, pm(m).currentTX, pm(m).prevTXs, pm(m).prevTXs[*]
 //@   callsite channel_persistence.Persister.Enabled : payload(arg1) == m.StateMachine && pm(m).currentTX.State == old(pm(m).stagingTX.State) && pm(m).stagingTX.State == nil && pm(m).phase == channel.Final
 
 //@ func (StateMachine).SetProgressed
+//@   inline
 //@   requires pmOK(m) && e != nil && e.State != nil
 //@   modifies pm(m).phase, pm(m).stagingTX, pm(m).currentTX, pm(m).prevTXs, pm(m).prevTXs[*]
 //@   callsite channel_persistence.Persister.Enabled : payload(arg1) == m.StateMachine && pm(m).currentTX.State == e.State && pm(m).phase == channel.Progressed
 
 //@ func (StateMachine).SetFunded
+//@   inline
 //@   requires pmOK(m)
 //@   modifies pm(m).phase
 //@   callsite channel_persistence.Persister.PhaseChanged : payload(arg1) == m.StateMachine && pm(m).phase == channel.Acting && old(pm(m).phase) == channel.Funding
 //@ func (StateMachine).SetRegistering
+//@   inline
 //@   requires pmOK(m)
 //@   modifies pm(m).phase
 //@   callsite channel_persistence.Persister.PhaseChanged : payload(arg1) == m.StateMachine && pm(m).phase == channel.Registering
 //@ func (StateMachine).SetRegistered
+//@   inline
 //@   requires pmOK(m)
 //@   modifies pm(m).phase
 //@   callsite channel_persistence.Persister.PhaseChanged : payload(arg1) == m.StateMachine && pm(m).phase == channel.Registered
 //@ func (StateMachine).SetWithdrawing
+//@   inline
 //@   requires pmOK(m)
 //@   modifies pm(m).phase
 //@   callsite channel_persistence.Persister.PhaseChanged : payload(arg1) == m.StateMachine && pm(m).phase == channel.Withdrawing
 //@ func (StateMachine).SetWithdrawn
+//@   inline
 //@   requires pmOK(m)
 //@   modifies pm(m).phase
 //@   callsite channel_persistence.Persister.ChannelRemoved : arg1 == pm(m).params.id && pm(m).phase == channel.Withdrawn && old(pm(m).phase) == channel.Withdrawing
